@@ -605,6 +605,7 @@ def _stack_blocks(
             raise TemplateInheritanceError(
                 f"duplicate block {block.name}",
                 token=block.token,
+                template_name=template_name,
             )
         seen_block_names.add(block.name)
 
